@@ -2635,6 +2635,9 @@ L360:
 	  /* Return from BOBYQA because a trust region step has failed
 	     to reduce Q. */
 	  rc = NLOPT_ROUNDOFF_LIMITED; /* or FTOL_REACHED? */
+	  /* the point just evaluated (still in x) is not yet part of the
+	     interpolation set that L720 returns the best member of */
+	  if (f < fopt) { *minf = f; return rc; }
 	  goto L720;
 	}
 	ratio = (f - fopt) / vquad;
